@@ -351,6 +351,8 @@ let handle_trace line name cfgs toks =
          | None when String.length o.raw > 3 && String.sub o.raw 0 3 = "PN." ->
              let msg = match String.split_on_char '.' o.raw with [ _; _; h ] -> unhex h | _ -> "" in
              raise (Rejected (idx, o.raw, "the runner function of this thread PANICKED: " ^ msg))
+         | None when String.length o.raw > 3 && String.sub o.raw 0 3 = "TB." ->
+             raise (Rejected (idx, o.raw, "SetCyclicTransmissionEnabled of the generated message did not return within a second: the application is blocked in it (holding the node lock); the model's WakeSend is a non-blocking send and always enabled"))
          | None when String.length o.raw > 3 && String.sub o.raw 0 3 = "NT." -> (
              (* the harness saw no tick for more than a second while the loop sat in its select: fine unless
                 the model says the ticker is running there *)
@@ -525,6 +527,38 @@ let handle_sh line fields =
          (if get "stopped" = "1" then "stopped" else "went on") (hx (get "hooks")) (if model_stops then "rejects" else "accepts")
          (if model_stops then "stops" else "goes on") model_hooks)
 
+(* HK line: which hook runs.  Per runner goroutine g that called a hook: its KL / KU, every KS (the
+   application replaced the hook under the lock) and its KC tokens, through RunLts.kstep *)
+let handle_hk line fields =
+  let kvs, toks = List.partition (fun f -> String.contains f '=') fields in
+  let f = List.map kv kvs in
+  let get k = try List.assoc k f with Not_found -> "0" in
+  note_case "HK" line;
+  let parsed = List.map (fun t -> String.split_on_char '.' t) toks in
+  let gs = List.sort_uniq compare (List.filter_map (function [ "KC"; g; _ ] -> Some g | _ -> None) parsed) in
+  if gs = [] then pfail line "no hook call observed";
+  List.iter
+    (fun g ->
+      let evs =
+        List.filter_map
+          (function
+            | [ "KL"; g' ] when g' = g -> Some KLock
+            | [ "KU"; g' ] when g' = g -> Some KUnlock
+            | [ "KS"; h ] -> Some (KSet (nh h))
+            | [ "KC"; g'; h ] when g' = g -> Some (KCall (nh h))
+            | _ -> None)
+          parsed
+      in
+      let show = function KLock -> "Lock" | KUnlock -> "Unlock" | KSet h -> Printf.sprintf "Set(%d)" (i h) | KCall h -> Printf.sprintf "Call(%d)" (i h) in
+      match kfirst_reject (kinit (nh (get "first"))) evs O with
+      | None -> ()
+      | Some n ->
+          let n = int_of_nat n in
+          pfail line
+            (Printf.sprintf "which-hook-runs: event#%d %s of runner goroutine %s not enabled in the model: the hook called must be the one that was installed when the runner read the hook inside its critical section; its events: %s"
+               n (show (List.nth evs n)) g (String.concat " " (List.map show evs))))
+    gs
+
 let handle_st line fields =
   let f = List.map kv fields in
   let get k = try List.assoc k f with Not_found -> "0" in
@@ -540,6 +574,7 @@ let handle line =
   | "RUN" :: fields -> handle_run line fields
   | "RN" :: fields -> handle_rn line fields
   | "SH" :: fields -> handle_sh line fields
+  | "HK" :: fields -> handle_hk line fields
   | "ST" :: fields -> handle_st line fields
   | _ -> failwith ("unparsable line: " ^ line)
 
